@@ -91,4 +91,31 @@ theorem settle_count (id : Nat) : ∀ (dels : List (Nat × Resp)) (owed ab owed'
       · have hi : i ∉ ab := by simpa using ha
         simp [hi] at h
 
+theorem settle_cons (owed ab : List Nat) (id : Nat) (r : Resp) (rest : List (Nat × Resp)) :
+    settle owed ab ((id, r) :: rest) =
+      if owed.contains id then settle (owed.erase id) ab rest
+      else if ab.contains id then settle owed (ab.erase id) rest
+      else .error id := by
+  rw [settle]
+
+/-- responses handed out in two batches settle like one batch after the other -/
+theorem settle_append (d1 d2 : List (Nat × Resp)) : ∀ (owed ab owed' ab' : List Nat),
+    settle owed ab d1 = .ok (owed', ab') → settle owed ab (d1 ++ d2) = settle owed' ab' d2 := by
+  induction d1 with
+  | nil => intro owed ab owed' ab' h; simp at h; obtain ⟨rfl, rfl⟩ := h; rfl
+  | cons d rest ih =>
+    intro owed ab owed' ab' h
+    obtain ⟨i, r⟩ := d
+    simp only [List.cons_append]
+    rw [settle_cons] at h ⊢
+    by_cases ho : owed.contains i = true
+    · rw [if_pos ho] at h ⊢
+      exact ih _ _ _ _ h
+    · rw [if_neg ho] at h ⊢
+      by_cases ha : ab.contains i = true
+      · rw [if_pos ha] at h ⊢
+        exact ih _ _ _ _ h
+      · rw [if_neg ha] at h
+        cases h
+
 end Scales.Transport
